@@ -76,11 +76,11 @@ func gen(t *rapid.T) Case {
 	focus := rapid.IntRange(0, 3).Draw(t, "focus") == 0
 	fd := rapid.IntRange(0, c.NDags-1).Draw(t, "focusDag")
 	if focus {
-		c.Ops = append(c.Ops, Op{Kind: rapid.SampledFrom([]string{"run", "fail", "crash"}).Draw(t, "focusPrior"), Dag: fd}, Op{Kind: "bg", Dag: fd})
+		c.Ops = append(c.Ops, Op{Kind: rapid.SampledFrom([]string{"run", "fail", "crash"}).Draw(t, "focusPrior"), Dag: fd}, Op{Kind: rapid.SampledFrom([]string{"bg", "bg", "bgfail"}).Draw(t, "focusLive"), Dag: fd})
 	}
 	for i := 0; i < n; i++ {
 		o := Op{Dag: rapid.IntRange(0, c.NDags-1).Draw(t, "dag")}
-		o.Kind = rapid.SampledFrom([]string{"run", "fail", "bg", "bg", "crash", "api", "api", "api", "api", "api", "api", "api"}).Draw(t, "kind")
+		o.Kind = rapid.SampledFrom([]string{"run", "fail", "bg", "bg", "bgfail", "crash", "api", "api", "api", "api", "api", "api", "api"}).Draw(t, "kind")
 		if focus && rapid.IntRange(0, 3).Draw(t, "stay") > 0 {
 			o.Dag, o.Kind = fd, "api"
 		}
@@ -169,11 +169,14 @@ func (w *world) close() {
 	w.h.Cleanup()
 }
 
+func (w *world) stopFile(i int) string { return filepath.Join(w.h.Dir, fmt.Sprintf("bgfail-%d.stop", i)) }
+
 func (w *world) stopBg(i int) {
 	b := w.bg[i]
 	if b == nil {
 		return
 	}
+	os.WriteFile(w.stopFile(i), nil, 0o644)
 	d, _ := dag.Load("", w.files[i], "")
 	if d != nil {
 		_ = w.h.Cli.Stop(d)
@@ -332,6 +335,61 @@ func (w *world) apply(c *Case, idx int, o Op) string {
 		w.bg[i] = b
 		w.labels["state:running"] = true
 		return ""
+	case "bgfail":
+		// a live run of another kind: its only step has failed, no step executes,
+		// and the process is busy with a long failure handler — still a run in progress
+		if running {
+			return ""
+		}
+		marker := filepath.Join(w.h.Dir, fmt.Sprintf("bgfail-%d.started", i))
+		os.Remove(marker)
+		script := filepath.Join(w.h.Dir, fmt.Sprintf("bgfail-%d.sh", i))
+		// the handler lasts until the harness lets it go (a stop request does not
+		// reach lifecycle handlers; they run to their end) or for a minute
+		os.Remove(w.stopFile(i))
+		os.WriteFile(script, []byte(fmt.Sprintf("#!/bin/sh\ntouch %s\nn=0\nwhile [ ! -e %s ] && [ $n -lt 1200 ]; do sleep 0.05; n=$((n+1)); done\n", marker, w.stopFile(i))), 0o755)
+		txt := fmt.Sprintf("params: d1\nsteps:\n  - name: s1\n    command: \"false\"\n  - name: s2\n    command: \"true\"\n    depends: [s1]\nhandlerOn:\n  failure:\n    command: sh %s\n", script)
+		os.WriteFile(file, []byte(txt), 0o644)
+		d, err := dag.Load("", file, "")
+		if err != nil {
+			return "harness: " + err.Error()
+		}
+		id := agentkit.NextReqID()
+		cctx, cancel := context.WithCancel(ctx)
+		b := &bgRun{cancel: cancel, done: make(chan error, 1), req: id}
+		go func() { b.done <- w.h.NewAgent(id, d, nil).Run(cctx) }()
+		deadline := time.Now().Add(10 * time.Second * time.Duration(sim.LoadFactor()))
+		up := false
+		for time.Now().Before(deadline) && !up {
+			if _, err := os.Stat(marker); err == nil {
+				if _, serr := os.Stat(d.SockAddr()); serr == nil {
+					up = true
+				}
+			}
+			time.Sleep(10 * time.Millisecond)
+		}
+		if !up {
+			cancel()
+			return "harness-inconclusive: background run (failure handler) did not come up"
+		}
+		// the run's own record has to be quiet before actions are compared around it
+		last, since := "", time.Now()
+		for time.Now().Before(deadline) {
+			cur := ""
+			if sf, err := w.h.NewDataStores().HistoryStore().FindByRequestID(file, id); err == nil {
+				jb, _ := sf.Status.ToJSON()
+				cur = string(jb)
+			}
+			if cur != last {
+				last, since = cur, time.Now()
+			} else if cur != "" && time.Since(since) > 300*time.Millisecond {
+				break
+			}
+			time.Sleep(10 * time.Millisecond)
+		}
+		w.bg[i] = b
+		w.labels["state:running-failure-handler"] = true
+		return ""
 	case "crash":
 		if running {
 			return ""
@@ -421,6 +479,7 @@ func (w *world) apply(c *Case, idx int, o Op) string {
 		}
 	}
 	if o.Action == "stop" && code/100 == 2 && running {
+		os.WriteFile(w.stopFile(i), nil, 0o644)
 		b := w.bg[i]
 		select {
 		case <-b.done:
@@ -621,6 +680,13 @@ func (w *world) apply(c *Case, idx int, o Op) string {
 			}
 			return ""
 		}
+		if o.Action == "save" && (o.Value%4 == 1 || o.Value%4 == 2) {
+			// broken YAML / a step with nothing to execute: once stored, the DAG can no
+			// longer be loaded and every later action on it (stopping a live run
+			// included) is answered with an error
+			os.WriteFile(file, []byte(defText(w.h.Dir, i, running)), 0o644)
+			return fmt.Sprintf("%s: a definition that cannot be loaded was accepted and stored by `save`", desc)
+		}
 		for _, k := range d {
 			if k != "~def:"+name {
 				return fmt.Sprintf("%s: save changed more than the DAG's own definition: %v", desc, d)
@@ -664,7 +730,7 @@ func check(t rep.Fataler, c Case) {
 	defer func() { w.close() }()
 	live := false
 	for _, o := range c.Ops {
-		if o.Kind == "bg" {
+		if o.Kind == "bg" || o.Kind == "bgfail" {
 			live = true
 		}
 	}
